@@ -1,6 +1,7 @@
 package cli
 
 import (
+	"bytes"
 	"context"
 	"encoding/json"
 	"fmt"
@@ -32,9 +33,23 @@ type ParseOptions struct {
 // decodeInto unmarshals in as YAML, then merges it into dest.
 func decodeInto(ctx context.Context, dest *map[string]interface{}, in io.Reader) error {
 	var intermediate map[string]interface{}
-	dec := yaml.NewDecoder(iotools.CancelableReader(ctx, in))
-	if err := dec.Decode(&intermediate); err != nil {
+	data, err := io.ReadAll(iotools.CancelableReader(ctx, in))
+	if err != nil {
 		return wrapError(StatusBadRequest, err)
+	}
+	dec := yaml.NewDecoder(bytes.NewReader(data))
+	if err := dec.Decode(&intermediate); err != nil {
+		// The YAML parser refuses some valid JSON texts, such as characters
+		// outside the basic plane written as a pair of \u escapes.
+		if !json.Valid(data) {
+			return wrapError(StatusBadRequest, err)
+		}
+		intermediate = nil
+		jd := json.NewDecoder(bytes.NewReader(data))
+		jd.UseNumber()
+		if jerr := jd.Decode(&intermediate); jerr != nil {
+			return wrapError(StatusBadRequest, err)
+		}
 	}
 	if err := mergo.Merge(dest, intermediate, mergo.WithOverride); err != nil {
 		return wrapError(StatusUnprocessableEntity, err)
